@@ -76,6 +76,8 @@ def tokenize(
                 else:
                     yield token
                     token = Token(source=formula)
+            elif not quote_context:
+                token = Token(source=formula)
             continue
         if quote_context and char == quote_context[-1]:
             token.update(char, i)
